@@ -88,6 +88,18 @@ TRet ==
                                  \* wrapped-counter regime of finding G2, and for C05 within its precondition on requests)
                                  \cup (IF st.skipped /\ ~Wrapped(st) /\ Fits(Ctr(st, cur)) /\ Delivers(E.res)
                                         THEN {<<run, "SkipSticksB", l>>} ELSE {})
+                                 \* ... as C03: what came back is a chunk, but not of the announced / required length;
+                                 \* as C02: an item or a chunk of the right length whose index or values are wrong
+                                 \cup (IF ~Wrapped(st) /\ Fits(Ctr(st, cur)) /\ E.res.k = "chunk"
+                                          /\ (x[1].k # "chunk" \/ OfLog(E.res.alen) # x[1].alen \/ MapLog(E.res.lens) # x[1].lens)
+                                        THEN {<<run, "ChunkB", l>>} ELSE {})
+                                 \cup (IF ~Wrapped(st) /\ Fits(Ctr(st, cur)) /\ E.res.k = x[1].k
+                                          /\ \/ (E.res.k = "chunk"
+                                                 /\ \/ OfLog(E.res.b) # x[1].b
+                                                    \/ \E j \in 1..Len(E.res.vals) : j <= Len(x[1].vals) /\ OfLog(E.res.vals[j]) # x[1].vals[j])
+                                             \/ (E.res.k = "item" /\ (OfLog(E.res.val) # x[1].val
+                                                                      \/ (x[1].idx # N(0, -1) /\ OfLog(E.res.idx) # x[1].idx)))
+                                        THEN {<<run, "IndexB", l>>} ELSE {})
                                  \cup (IF st.endSeen /\ ~Wrapped(st) /\ Fits(Add(st.req, Requested(st, cur))) /\ Delivers(E.res)
                                         THEN {<<run, "EndSticksB", l>>} ELSE {})
                  /\ ign' = TRUE
